@@ -7,7 +7,7 @@ ASSUMPTIONS = ["asyncio-visible interleavings only (gates at query rows / notify
 
 def run(tier, seed):
     return [relay.suite_scripted(tier, seed, "sql", pid="C13"), relay.suite_scripted(tier, seed, "kv", pid="C13"), relay.suite_exhaustive(tier, seed, "sql", pid="C13"), relay.suite_validate(tier, seed, pid="C13"), relay.suite_churn(tier, seed, "sql", pid="C13"), relay.suite_relay(tier, seed, "sql", pid="C13"),
-            relay.suite_relay(tier, seed, "kv", pid="C13"), extra.suite_kv_req_burst(tier, seed), extra.suite_failing_query_answered(tier, seed), extra.suite_colliding_client_ids(tier, seed), extra.suite_config_defaults(tier, seed, ("subscription_limit",)), extra.suite_simultaneous_reqs(tier, seed)]
+            relay.suite_relay(tier, seed, "kv", pid="C13"), extra.suite_kv_req_burst(tier, seed), extra.suite_failing_query_answered(tier, seed), extra.suite_colliding_client_ids(tier, seed), extra.suite_config_defaults(tier, seed, ("subscription_limit",)), extra.suite_simultaneous_reqs(tier, seed), extra.suite_abandoned_big_queries(tier, seed)]
 
 
 def replay(payload):
